@@ -8,11 +8,15 @@ import (
 )
 
 // C17 replay accessors: thin exports of the unexported storage helpers (no logic).
-func VerifC17PutPeerApply(n *native.NativeService, p *RegisterPeerParam) error { return putPeerApply(n, p) }
-func VerifC17PutPeerPoolMap(n *native.NativeService, m *PeerPoolMap, view uint32) { putPeerPoolMap(n, m, view) }
-func VerifC17PutConfig(n *native.NativeService, c *Configuration)               { putConfig(n, c) }
-func VerifC17PutCandidateIndex(n *native.NativeService, i uint32)               { putCandidateIndex(n, i) }
-func VerifC17PutGovernanceView(n *native.NativeService, g *GovernanceView)      { putGovernanceView(n, g) }
+func VerifC17PutPeerApply(n *native.NativeService, p *RegisterPeerParam) error {
+	return putPeerApply(n, p)
+}
+func VerifC17PutPeerPoolMap(n *native.NativeService, m *PeerPoolMap, view uint32) {
+	putPeerPoolMap(n, m, view)
+}
+func VerifC17PutConfig(n *native.NativeService, c *Configuration)          { putConfig(n, c) }
+func VerifC17PutCandidateIndex(n *native.NativeService, i uint32)          { putCandidateIndex(n, i) }
+func VerifC17PutGovernanceView(n *native.NativeService, g *GovernanceView) { putGovernanceView(n, g) }
 func VerifC17PutConsensusSigns(n *native.NativeService, k common.Uint256, c *ConsensusSigns) {
 	putConsensusSigns(n, k, c)
 }
